@@ -1,12 +1,13 @@
 """Canary self-test (thorough tier): every canary mutant of the property (selftest/*.diff, one broken instance each, still
 compiling) is applied to a scratch copy of /repo's current tree; the rule must fire and name that instance. A canary that
-does not fire means the CHECKER is broken (exit non-zero, no VIOLATION line for the property)."""
+does not fire means the CHECKER is broken (exit non-zero, no VIOLATION line for the property).
+Canaries are independent, so they run in VV_SELFTEST_JOBS (default 4) worker processes, each with its own scratch copy."""
 import importlib
 import json
+import multiprocessing
 import os
 import shutil
 import subprocess
-import sys
 
 from . import extract, facts as factsmod, report
 
@@ -18,6 +19,47 @@ def _copy_tree(src, dst):
     subprocess.run(["rsync", "-a", "--delete", "--exclude", "target", "--exclude", ".git", src.rstrip("/") + "/", dst.rstrip("/") + "/"], check=True)
 
 
+def _one(args):
+    """evaluate one canary in its own scratch copy; returns (name, status, detail dict)"""
+    prop, name, want, seed, scratch = args
+    try:
+        _copy_tree(extract.REPO, scratch)
+        pr = subprocess.run(["patch", "-p1", "-s", "-i", os.path.join(VERIF, "selftest", name)], cwd=scratch, stdout=subprocess.PIPE, stderr=subprocess.STDOUT, text=True)
+        if pr.returncode != 0:
+            # the canary no longer applies to the current tree (the anchor moved): report, but this is not a checker failure
+            return name, "not-applicable", {"detail": pr.stdout[-300:]}
+        try:
+            fdir, h, info = extract.ensure_facts(repo=scratch, log=open(os.devnull, "w"))
+        except extract.ExtractionError as e:
+            return name, "not-compiling", {"detail": str(e)[-300:]}
+        F = factsmod.Facts.load(fdir)
+        F.repo = scratch
+        mod = importlib.import_module(f"vv.rules.{prop.lower()}")
+        ctx = report.Ctx(F, prop, "quick", seed)
+        saved = extract.REPO
+        extract.REPO = scratch
+        try:
+            mod.run(ctx)
+            from .rules import common
+            ctx.run(f"{prop}-Q0", "exact lints over the property's anchor files", common.anchored_lints(prop), floor=1)
+        finally:
+            extract.REPO = saved
+        ctx.finish_floors()
+        got = [f"{f.rule} | {f.instance}" for f in ctx.findings]
+        shutil.rmtree(os.path.join(extract.CACHE, h), ignore_errors=True)
+        try:
+            os.unlink(os.path.join(extract.CACHE, h + ".lock"))
+        except OSError:
+            pass
+        if any(want in g for g in got):
+            return name, "fired", {"expected": want}
+        return name, "MISSED", {"expected": want, "got": got[:5]}
+    except Exception as e:  # a crash of the machinery on a canary is a checker failure, not a pass
+        return name, "MISSED", {"expected": want, "got": [f"crash: {type(e).__name__}: {e}"[:300]]}
+    finally:
+        shutil.rmtree(scratch, ignore_errors=True)
+
+
 def run(prop, seed=0, out=print):
     exp_path = os.path.join(VERIF, "selftest", "expect.json")
     if not os.path.exists(exp_path):
@@ -26,55 +68,38 @@ def run(prop, seed=0, out=print):
     if not exp:
         out(f"[selftest] {prop}: no canaries registered")
         return 0
-    scratch = os.environ.get("VERIF_SCRATCH", f"/var/tmp/vrp-verif-{os.getpid()}")
+    base = os.environ.get("VERIF_SCRATCH", f"/var/tmp/vrp-verif-{os.getpid()}")
+    try:
+        jobs = max(1, int(os.environ.get("VV_SELFTEST_JOBS", "4")))
+    except ValueError:
+        jobs = 4
+    tasks = [(prop, name, exp[name]["expect"], seed, f"{base}-{i}") for i, name in enumerate(sorted(exp))]
     rc = 0
     results = []
     try:
-        for name in sorted(exp):
-            want = exp[name]["expect"]
-            _copy_tree(extract.REPO, scratch)
-            pr = subprocess.run(["patch", "-p1", "-s", "-i", os.path.join(VERIF, "selftest", name)], cwd=scratch, stdout=subprocess.PIPE, stderr=subprocess.STDOUT, text=True)
-            if pr.returncode != 0:
-                # the canary no longer applies to the current tree (the anchor moved): report, but this is not a checker failure
-                results.append({"canary": name, "status": "not-applicable", "detail": pr.stdout[-300:]})
-                out(f"[selftest] {prop}: canary {name} does not apply to the current tree (skipped)")
-                continue
-            try:
-                fdir, h, info = extract.ensure_facts(repo=scratch, log=open(os.devnull, "w"))
-            except extract.ExtractionError as e:
-                results.append({"canary": name, "status": "not-compiling", "detail": str(e)[-300:]})
-                out(f"[selftest] {prop}: canary {name} does not compile on the current tree (skipped)")
-                continue
-            F = factsmod.Facts.load(fdir)
-            F.repo = scratch
-            mod = importlib.import_module(f"vv.rules.{prop.lower()}")
-            ctx = report.Ctx(F, prop, "quick", seed)
-            saved = extract.REPO
-            extract.REPO = scratch
-            try:
-                mod.run(ctx)
-                from .rules import common
-                ctx.run(f"{prop}-Q0", "exact lints over the property's anchor files", common.anchored_lints(prop), floor=1)
-            finally:
-                extract.REPO = saved
-            ctx.finish_floors()
-            got = [f"{f.rule} | {f.instance}" for f in ctx.findings]
-            if any(want in g for g in got):
-                results.append({"canary": name, "status": "fired", "expected": want})
-                out(f"[selftest] {prop}: canary {name} fired ({want})")
-            else:
-                rc = 3
-                results.append({"canary": name, "status": "MISSED", "expected": want, "got": got[:5]})
-                out(f"SELFTEST-FAILED property={prop} canary={name}: expected `{want}`, checker reported {got[:3]}")
-            shutil.rmtree(os.path.join(extract.CACHE, h), ignore_errors=True)
-            try:
-                os.unlink(os.path.join(extract.CACHE, h + ".lock"))
-            except OSError:
-                pass
+        if jobs == 1 or len(tasks) == 1:
+            outs = [_one(t) for t in tasks]
+        else:
+            with multiprocessing.get_context("fork").Pool(min(jobs, len(tasks))) as pool:
+                outs = pool.map(_one, tasks, chunksize=1)
     finally:
-        shutil.rmtree(scratch, ignore_errors=True)
+        for t in tasks:
+            shutil.rmtree(t[4], ignore_errors=True)
+    for name, status, d in outs:
+        rec = {"canary": name, "status": status}
+        rec.update(d)
+        results.append(rec)
+        if status == "fired":
+            out(f"[selftest] {prop}: canary {name} fired ({d['expected']})")
+        elif status == "not-applicable":
+            out(f"[selftest] {prop}: canary {name} does not apply to the current tree (skipped)")
+        elif status == "not-compiling":
+            out(f"[selftest] {prop}: canary {name} does not compile on the current tree (skipped)")
+        else:
+            rc = 3
+            out(f"SELFTEST-FAILED property={prop} canary={name}: expected `{d.get('expected')}`, checker reported {d.get('got', [])[:3]}")
     # append the self-test outcome to the evidence file written by the property run
-    ev_path = os.path.join(VERIF, "evidence", f"{prop}.json")
+    ev_path = os.path.join(os.environ.get("VV_EVIDENCE_DIR") or os.path.join(VERIF, "evidence"), f"{prop}.json")
     try:
         ev = json.load(open(ev_path))
         ev["coverage"]["selftest"] = results
